@@ -36,7 +36,7 @@ CONSTS = {
     "quick": (
         dict(NSyms=3, MaxLen=3, MaxUses=2, MaxGuards=1, WithODE="TRUE", MaxFeat=3, MaxAdm=5, MinEmit=1, MaxRmSet=2, SampleMod=16, Thin=1, FullDepth=0, ChainMode="FALSE"),
         dict(NSyms=4, MaxLen=6, MaxUses=2, MaxGuards=2, WithODE="TRUE", MaxFeat=9, MaxAdm=4, MinEmit=5, MaxRmSet=1, SampleMod=6, Thin=64, FullDepth=1, ChainMode="FALSE"),
-        dict(NSyms=4, MaxLen=5, MaxUses=1, MaxGuards=0, WithODE="FALSE", MaxFeat=9, MaxAdm=5, MinEmit=4, MaxRmSet=1, SampleMod=5, Thin=1, FullDepth=0, ChainMode="TRUE"),
+        dict(NSyms=4, MaxLen=5, MaxUses=1, MaxGuards=0, WithODE="FALSE", MaxFeat=9, MaxAdm=5, MinEmit=4, MaxRmSet=1, SampleMod=1, Thin=1, FullDepth=0, ChainMode="TRUE"),
     ),
     "thorough": (
         dict(NSyms=3, MaxLen=3, MaxUses=2, MaxGuards=1, WithODE="TRUE", MaxFeat=5, MaxAdm=5, MinEmit=1, MaxRmSet=2, SampleMod=8, Thin=1, FullDepth=0, ChainMode="FALSE"),
@@ -421,6 +421,7 @@ def check_case(case, seed=0):
                     "complete = a remaining definition of S is still read)",
                     removed=R,
                     reader_between_def_and_stmt=between,
+                    equals_transcription=R == sorted(q["tr"]),
                     statement_itself_removed=k in R,
                     **kw,
                 )
